@@ -99,6 +99,29 @@ check('C07', 'E1', 'exploration',
       'One open finding (paragraph-less environments are never normalized).',
       'DESIGN.md 2/C07')
 
-_PENDING = {'C06': 'check not built yet in this round (planned: bounded exhaustive exploration, see DESIGN.md section 2)', 'C08': 'check not built yet in this round (planned: bounded exhaustive exploration, see DESIGN.md section 2)', 'C09': 'check not built yet in this round (planned: bounded exhaustive exploration, see DESIGN.md section 2)', 'C10': 'check not built yet in this round (planned: bounded exhaustive exploration, see DESIGN.md section 2)', 'C11': 'check not built yet in this round (planned: bounded exhaustive exploration, see DESIGN.md section 2)', 'C12': 'check not built yet in this round (planned: bounded exhaustive exploration, see DESIGN.md section 2)', 'C13': 'check not built yet in this round (planned: bounded exhaustive exploration, see DESIGN.md section 2)', 'C14': 'check not built yet in this round (planned: bounded exhaustive exploration, see DESIGN.md section 2)', 'C15': 'check not built yet in this round (planned: bounded exhaustive exploration, see DESIGN.md section 2)', 'C16': 'check not built yet in this round (planned: bounded exhaustive exploration, see DESIGN.md section 2)', 'C17': 'check not built yet in this round (planned: bounded exhaustive exploration, see DESIGN.md section 2)', 'C18': 'check not built yet in this round (planned: bounded exhaustive exploration, see DESIGN.md section 2)', 'C19': 'check not built yet in this round (planned: bounded exhaustive exploration, see DESIGN.md section 2)', 'C20': 'check not built yet in this round (planned: bounded exhaustive exploration, see DESIGN.md section 2)'}
+check('C08', 'E2', 'model_checking',
+      'exhaustive value sweep of the representations + explicit-state BFS over numbering histories against a LaTeX counter model',
+      '(a) Every value 1..4999 (1..26 for alph/Alph) of arabic/roman/Roman/alph/Alph on Counter objects and through the parser, '
+      'against an independent subtractive-notation generator. (b) Breadth-first search (depth 4 quick / 6 thorough) over histories '
+      'of 18 numbering events in article and book with sec-num-depth default/0/3; every history is printed as a document and '
+      'parsed from scratch; the printed number of every numbered node in document order and the final counter values must equal '
+      'those of a LaTeX counter model (transitive reset on stepping only, class formats, numbering depth, appendix).',
+      'Trusted: the counter model in vp/checks/c08.py (article.cls/book.cls rules). Normal form: \\appendix is followed by its '
+      'first unit; theorems numbered within a unit that is below the numbering depth are excluded.',
+      'DESIGN.md 2/C08')
+
+check('C16', 'E1', 'exploration',
+      'bounded exhaustive enumeration of option x value x layering of files and command line against a precedence-fold model',
+      'For every option of every section (59 real + a synthetic renderer section) and a per-type value menu, all layerings in '
+      'which each of three configuration files and the command line independently omits or sets the option, all file shapes '
+      '(missing, empty, unknown section/key), all pairs of options and all interpolation pairs/chains are written to scratch '
+      'files and run through the real plasTeX.client.main (only Compile.run replaced); the read-back of all options is compared '
+      'with a model that folds defaults < files in order < command line with per-type conversion and %(name)s / %% '
+      'interpolation.',
+      'Trusted: vp/refs/c16_config_model.py (pinned option table, no plasTeX import). Two open findings (dictionary keys '
+      'lower-cased in files; six stale documented defaults).',
+      'DESIGN.md 2/C16')
+
+_PENDING = {'C06': 'check not built yet in this round (planned: bounded exhaustive exploration, see DESIGN.md section 2)', 'C09': 'check not built yet in this round (planned: bounded exhaustive exploration, see DESIGN.md section 2)', 'C10': 'check not built yet in this round (planned: bounded exhaustive exploration, see DESIGN.md section 2)', 'C11': 'check not built yet in this round (planned: bounded exhaustive exploration, see DESIGN.md section 2)', 'C12': 'check not built yet in this round (planned: bounded exhaustive exploration, see DESIGN.md section 2)', 'C13': 'check not built yet in this round (planned: bounded exhaustive exploration, see DESIGN.md section 2)', 'C14': 'check not built yet in this round (planned: bounded exhaustive exploration, see DESIGN.md section 2)', 'C15': 'check not built yet in this round (planned: bounded exhaustive exploration, see DESIGN.md section 2)', 'C17': 'check not built yet in this round (planned: bounded exhaustive exploration, see DESIGN.md section 2)', 'C18': 'check not built yet in this round (planned: bounded exhaustive exploration, see DESIGN.md section 2)', 'C19': 'check not built yet in this round (planned: bounded exhaustive exploration, see DESIGN.md section 2)', 'C20': 'check not built yet in this round (planned: bounded exhaustive exploration, see DESIGN.md section 2)'}
 for _p, _why in _PENDING.items():
     NOT_APPLICABLE.append({'property_id': _p, 'reason': _why})
